@@ -10,6 +10,7 @@ import (
 	"math"
 	"math/rand"
 	"os"
+	"runtime"
 	"sort"
 	"strings"
 	"time"
@@ -199,6 +200,18 @@ func runCase(idx int, c *caseDesc) {
 
 // ------------------------------------------------------------------ recycler (real timers)
 
+// settle lets the library's background consumer of recycle tasks run: it is a goroutine of this process that became
+// runnable when the task was sent, so yielding the processor to it is what matters, not wall-clock time
+func settle() {
+	for k := 0; k < 2000; k++ {
+		runtime.Gosched()
+	}
+	time.Sleep(50 * time.Millisecond)
+	for k := 0; k < 2000; k++ {
+		runtime.Gosched()
+	}
+}
+
 func recycleScenario(i int) {
 	caseNo++
 	res := fmt.Sprintf("c20r-%d", caseNo)
@@ -233,7 +246,7 @@ func recycleScenario(i int) {
 	// (real pause: the recycle tasks queued by the requests above are consumed by a background goroutine; in real
 	// deployments at least the retry timeout lies between an ejection report and a successful probe, here virtual
 	// time would compress that gap to microseconds and the "recovered" mark would race with the task consumer)
-	time.Sleep(20 * time.Millisecond)
+	settle()
 	clk.AddMs(100)
 	call(healed, false)
 	call(healed, false)
@@ -243,7 +256,7 @@ func recycleScenario(i int) {
 		clk.AddMs(100)
 		call(healed, true)
 		call("", false)
-		time.Sleep(20 * time.Millisecond)
+		settle()
 	}
 	// wait (real time) until the control node has been recycled: it no longer shows up as an outlier
 	gone := false
